@@ -93,7 +93,8 @@ def transact_lemma(kind):
         client, tm, f = CL.make_client(E, kind, wire, rec, 0, False, False, transport)
         req, uid, n = CL.request(E)
         exp = E.int('expected_response_length', 4, 300) if E.choice('length_predicted', [True, False]) else None
-        out = E.attempt(lambda: E.method(tm, '_transact', req, exp, full=E.bool('full'), broadcast=False))
+        full = E.bool('full')
+        out = E.attempt(lambda: E.method(tm, '_transact', req, exp, full=full, broadcast=False))
         nonhex = False
         if kind == 'ascii' and len(wire.reads) >= 1 and fault[0] is None:
             first = wire.reads[0][1]
@@ -101,8 +102,15 @@ def transact_lemma(kind):
             nonhex = L.And(L.length(first) == 5, L.Or(CK.hexval(L.at(first, 3)) < 0, CK.hexval(L.at(first, 4)) < 0))
         E.prove('transact:no-exception-escapes', out.ok, raised=(out.exc.cls if not out.ok else None), finding='C13-F3', region=nonhex)
         E.prove('transact:at-most-one-frame-written', len(wire.sent) <= 1)
+        # every attempt (re)connects before it writes: the attempt before it may have closed the connection (a retry depends on it)
+        E.prove('transact:connects-before-it-writes', len(wire.events) >= 1 and wire.events[0] == 'connect')
         if out.ok:
             r = out.value
+            if fault[0] is None and not full and len(wire.reads) >= 1:
+                # silence (the read timed out with nothing) ends the attempt like a transport error: connection closed, so that the reply,
+                # should it still come, cannot be read by a later attempt or transaction
+                E.prove('transact:silence->connection-closed-and-empty-result',
+                        L.Implies(L.length(wire.reads[0][1]) == 0, L.And(wire.closes >= 1, L.length(r[0]) == 0, r[1] is not None)))
             if fault[0] is not None:
                 E.prove('transact:transport-error->connection-closed-and-empty-result', L.And(wire.closes >= 1, L.length(r[0]) == 0, r[1] is not None))
     return lemma
